@@ -126,7 +126,8 @@ def check(report: Report, repo: Repo) -> None:
             def _pa(e, i, name):
                 return e["args"][i] if len(e["args"]) > i else e["kwargs"].get(name)
 
-            okp = len(pat) == 1 and _pa(pat[0], 0, "target") is res and _pa(pat[0], 1, "attribute") == "forward" and _pa(pat[0], 2, "new") is res.attrs.get("base_forward")
+            pat = [e for e in pat if _pa(e, 0, "target") is res]  # patches of other objects (Dynamo internals) are not this rule's
+            okp = len(pat) == 1 and _pa(pat[0], 1, "attribute") == "forward" and _pa(pat[0], 2, "new") is res.attrs.get("base_forward")
             report.add("R5-cache-flags", f"{cons}::new_forward::patch", okp, f"[{sname}] call {call_no}: the traced call sees base_forward as module.forward", len(pat), 1, nontrivial=False)
 
     # ------------------------------------------------ R2 composition order
